@@ -116,6 +116,10 @@ async fn resolve_and_build_response(args: ListenArgs, query: Message) -> Message
                             response.header.rcode = Rcode::NameError;
                             response.header.is_authoritative = true;
                         }
+                        ResolvedRecord::Delegation { mut ns_rrs } => {
+                            response.authority.append(&mut ns_rrs);
+                            response.header.is_authoritative = false;
+                        }
                         ResolvedRecord::NonAuthoritative { mut rrs, soa_rr } => {
                             response.answers.append(&mut rrs);
                             if let Some(soa_rr) = soa_rr {
